@@ -106,14 +106,14 @@ Fixpoint col_after (col : N) (s : bytes) : N :=
 
 Definition in_rng (lo hi c : N) : bool := (lo <=? c) && (c <=? hi).
 
-(* is_yangutf8char() of tree_schema_internal.h, as coded.
-   DEFECT: the range for plane 4 reads (c >= 0x40000 && c <= 0x2fffd), which is empty, so the
-   characters U+40000..U+4FFFD are rejected (Utf8.is_yang_char is the RFC 7950 rule). *)
+(* is_yangutf8char() of tree_schema_internal.h, as coded. The range of plane 4 read
+   (c >= 0x40000 && c <= 0x2fffd) until /repo commit f25b870 (plane 4 was rejected); now it is the
+   RFC 7950 rule Utf8.is_yang_char (YangTextP.yangutf8char_spec). *)
 Definition is_yangutf8char (c : N) : bool :=
   in_rng 32 55295 c || (c =? 9) || (c =? 10) || (c =? 13) ||
   in_rng 57344 64975 c || in_rng 65008 65533 c ||
   in_rng 65536 131069 c || in_rng 131072 196605 c ||
-  in_rng 196608 262141 c || in_rng 262144 196605 c ||
+  in_rng 196608 262141 c || in_rng 262144 327677 c ||
   in_rng 327680 393213 c || in_rng 393216 458749 c ||
   in_rng 458752 524285 c || in_rng 524288 589821 c ||
   in_rng 589824 655357 c || in_rng 655360 720893 c ||
